@@ -11,7 +11,7 @@ import tempfile
 
 from . import indep
 
-REPO = os.environ.get("VERIF_REPO", "/repo")
+REPO = os.environ.get("VERIF_REPO") or "/repo"
 
 _state = {"scratch": None}
 
